@@ -312,7 +312,7 @@ def run(tier, replay=None):
         if r["rc2"] != 0 or r["outs"] != r["ref"]:
             viols.append({"prop": "C05", "key": "C05:%s:SIGKILL:fork-failed-earlier-fork-running:restart" % pname,
                           "what": "C05 program %s: fork %s failed (the job succeeds when run again) while %s was still unfinished, mrp was killed right after reading the failure; the restarted mrp ended with status %s, outputs %s, reference %s; %s" % (
-                              pname, fkey, skey, r["rc2"], json.dumps(r["outs"])[:120], json.dumps(r["ref"])[:120], r["mrp_out"].replace("\n", " ")[-300:]),
+                              pname, fkey, skey or "the earlier fork", r["rc2"], json.dumps(r["outs"])[:120], json.dumps(r["ref"])[:120], r["mrp_out"].replace("\n", " ")[-300:]),
                           "replay": {"program.mro": r["mro"], "report.json": json.dumps({k_: v_ for k_, v_ in r.items() if k_ != "mro"})}})
     mine = [v for v in viols if v["prop"] == "C05"]
     others = sorted({v["prop"] for v in viols if v["prop"] != "C05"})
